@@ -219,4 +219,4 @@ def run(ctx):
     from skchange.costs import GaussianVarCost as _GV
     variants_stream(ctx, "CircularBinarySegmentation(L2Cost)", lambda: _CBS(min_segment_length=2, max_interval_length=40), ctx.n(3, 14), n_range=(30, 46),
                     flat_make=lambda: _CBS(min_segment_length=2, max_interval_length=40, threshold_scale=1e6))
-    variants_stream(ctx, "CircularBinarySegmentation(GaussianVarCost)", lambda: _CBS(anomaly_score=_GV(), min_segment_length=3, max_interval_length=30), ctx.n(1, 8), n_range=(30, 40))
+    variants_stream(ctx, "CircularBinarySegmentation(GaussianVarCost)", lambda: _CBS(anomaly_score=_GV(), min_segment_length=3, max_interval_length=30), ctx.n(1, 8), n_range=(30, 40), nested=("anomaly_score__param", (0.0, 1.0)))
